@@ -242,25 +242,27 @@ impl GqlTranslator {
             }
         }
 
-        // Apply SKIP
-        if let Some(skip_expr) = &query.return_clause.skip
-            && let ast::Expression::Literal(ast::Literal::Integer(n)) = skip_expr
-        {
-            plan = LogicalOperator::Skip(SkipOp {
-                count: *n as usize,
-                input: Box::new(plan),
-            });
-        }
-
-        // Apply LIMIT
-        if let Some(limit_expr) = &query.return_clause.limit
-            && let ast::Expression::Literal(ast::Literal::Integer(n)) = limit_expr
-        {
-            plan = LogicalOperator::Limit(LimitOp {
-                count: *n as usize,
-                input: Box::new(plan),
-            });
-        }
+        // SKIP and LIMIT select a window of the *ordered* (and, for aggregate queries,
+        // aggregated) result, so they are applied after ORDER BY below
+        let apply_skip_limit = |mut plan: LogicalOperator| -> LogicalOperator {
+            if let Some(skip_expr) = &query.return_clause.skip
+                && let ast::Expression::Literal(ast::Literal::Integer(n)) = skip_expr
+            {
+                plan = LogicalOperator::Skip(SkipOp {
+                    count: *n as usize,
+                    input: Box::new(plan),
+                });
+            }
+            if let Some(limit_expr) = &query.return_clause.limit
+                && let ast::Expression::Literal(ast::Literal::Integer(n)) = limit_expr
+            {
+                plan = LogicalOperator::Limit(LimitOp {
+                    count: *n as usize,
+                    input: Box::new(plan),
+                });
+            }
+            plan
+        };
 
         // Check if RETURN contains aggregate functions
         let has_aggregates = query
@@ -313,6 +315,8 @@ impl GqlTranslator {
                 });
             }
 
+            plan = apply_skip_limit(plan);
+
             // Note: For aggregate queries, we don't add a Return operator
             // because Aggregate already produces the final output
         } else {
@@ -337,6 +341,8 @@ impl GqlTranslator {
                     input: Box::new(plan),
                 });
             }
+
+            plan = apply_skip_limit(plan);
 
             // Apply RETURN
             let return_items = query
